@@ -4,16 +4,16 @@
 From Gots Require Import Base.Prelude Model.Ebp Spec.EbpSpec Proofs.EbpTime Proofs.EbpSync Proofs.EbpDecode Proofs.EbpReencode Proofs.EbpBuild.
 Import Ebp EbpSpec.
 
-(* ---- decode is exact: the readers (code as it is, g = false) invert the Spec serialisers, for every well-formed logical
+(* ---- decode is exact: the readers (g = false: the code as it is; g = true: with the C05 guard patch) invert the Spec serialisers, for every well-formed logical
    EBP (any flag combination, SAP, grouping chain, time, reserved tail), whatever follows the EBP in the buffer.
    decoded_comcast / decoded_cablelabs is the object with exactly the encoded fields; the getters theorems spell out what each getter reports. ---- *)
-Theorem C12_decode_ser_comcast : forall (c : comcast) (rest : bytes), wf_comcast c ->
-  ReadEncoderBoundaryPoint false (ser_comcast c ++ rest) = Ok (Comcast, decoded_comcast c).
+Theorem C12_decode_ser_comcast : forall (g : bool) (c : comcast) (rest : bytes), wf_comcast c ->
+  ReadEncoderBoundaryPoint g (ser_comcast c ++ rest) = Ok (Comcast, decoded_comcast c).
 Proof. exact read_ebp_comcast. Qed.
 Print Assumptions C12_decode_ser_comcast.
 
-Theorem C12_decode_ser_cablelabs : forall (c : cablelabs) (rest : bytes), wf_cablelabs c ->
-  ReadEncoderBoundaryPoint false (ser_cablelabs c ++ rest) = Ok (CableLabs, decoded_cablelabs c).
+Theorem C12_decode_ser_cablelabs : forall (g : bool) (c : cablelabs) (rest : bytes), wf_cablelabs c ->
+  ReadEncoderBoundaryPoint g (ser_cablelabs c ++ rest) = Ok (CableLabs, decoded_cablelabs c).
 Proof. exact read_ebp_cablelabs. Qed.
 Print Assumptions C12_decode_ser_cablelabs.
 
@@ -48,13 +48,13 @@ Proof. exact decoded_cablelabs_getters. Qed.
 Print Assumptions C12_decoded_cablelabs_getters.
 
 (* ---- re-encode is byte-identical: wf b -> Data (decode b) = b (and Data leaves the object as it was) ---- *)
-Theorem C12_reencode_comcast : forall c : comcast, wf_comcast c -> exists e,
-  ReadEncoderBoundaryPoint false (ser_comcast c) = Ok (Comcast, e) /\ Data Comcast e = (ser_comcast c, e).
+Theorem C12_reencode_comcast : forall (g : bool) (c : comcast), wf_comcast c -> exists e,
+  ReadEncoderBoundaryPoint g (ser_comcast c) = Ok (Comcast, e) /\ Data Comcast e = (ser_comcast c, e).
 Proof. exact reencode_comcast_bytes. Qed.
 Print Assumptions C12_reencode_comcast.
 
-Theorem C12_reencode_cablelabs : forall c : cablelabs, wf_cablelabs c -> exists e,
-  ReadEncoderBoundaryPoint false (ser_cablelabs c) = Ok (CableLabs, e) /\ Data CableLabs e = (ser_cablelabs c, e).
+Theorem C12_reencode_cablelabs : forall (g : bool) (c : cablelabs), wf_cablelabs c -> exists e,
+  ReadEncoderBoundaryPoint g (ser_cablelabs c) = Ok (CableLabs, e) /\ Data CableLabs e = (ser_cablelabs c, e).
 Proof. exact reencode_cablelabs_bytes. Qed.
 Print Assumptions C12_reencode_cablelabs.
 
@@ -80,15 +80,15 @@ Proof. exact wf_cablelabs_example. Qed.
    sequence of setters / field assignments produced it: Data() is tag, length byte = number of bytes that follow, body;
    Data() stores that length in the object; and decoding the bytes yields canon_comcast / canon_cablelabs = the object with unflagged fields reset,
    which is the object itself when no value was stored under a cleared flag (strict_comcast, strict_cablelabs). ---- *)
-Theorem C12_build_encode_decode_comcast : forall e : t, cons_comcast e ->
+Theorem C12_build_encode_decode_comcast : forall (g : bool) (e : t), cons_comcast e ->
   ComcastData e = (169 :: len (comcast_body e) :: comcast_body e, set_DataFieldLength e (len (comcast_body e)))
-  /\ ReadEncoderBoundaryPoint false (fst (ComcastData e)) = Ok (Comcast, canon_comcast e).
+  /\ ReadEncoderBoundaryPoint g (fst (ComcastData e)) = Ok (Comcast, canon_comcast e).
 Proof. exact build_encode_decode_comcast. Qed.
 Print Assumptions C12_build_encode_decode_comcast.
 
-Theorem C12_build_encode_decode_cablelabs : forall e : t, cons_cablelabs e ->
+Theorem C12_build_encode_decode_cablelabs : forall (g : bool) (e : t), cons_cablelabs e ->
   CableLabsData e = (223 :: len (cablelabs_body e) :: cablelabs_body e, set_DataFieldLength e (len (cablelabs_body e)))
-  /\ ReadEncoderBoundaryPoint false (fst (CableLabsData e)) = Ok (CableLabs, canon_cablelabs e).
+  /\ ReadEncoderBoundaryPoint g (fst (CableLabsData e)) = Ok (CableLabs, canon_cablelabs e).
 Proof. exact build_encode_decode_cablelabs. Qed.
 Print Assumptions C12_build_encode_decode_cablelabs.
 
